@@ -74,7 +74,7 @@ TOL = 1e-7
 A2_MAX = 1e-3          # errors in (TOL, A2_MAX] are re-checked with qiskit's A.2 optimisation bypassed (known precision limit)
 BAND = (1e-9, 1e-5)    # Schmidt coefficients of generated inputs stay outside this band around the 1e-7 rank threshold
 
-FAMILIES = ["complex", "real_signed", "nonneg", "sparse", "zero_subtree", "basis", "uniform", "product", "signed_product",
+FAMILIES = ["complex", "real_signed", "nonneg", "sparse", "zero_subtree", "basis", "uniform", "product", "signed_product", "partial_repetition",
             "ghz", "w", "rankdef", "repeated"]
 
 
@@ -183,6 +183,41 @@ def make_vector(r, n, family, part=None):
         for _ in range(n):
             f = pool[int(r.integers(len(pool)))]
             v = np.kron(v, f / np.linalg.norm(f))
+    elif family == "partial_repetition":
+        # the level multiplexers repeat only PARTLY: product on one branch of the top qubit, entangled (or sparse)
+        # on the other, with a common real one-qubit factor kept on a lower qubit - UCGE's repetition search has
+        # to start a verification, strike entries and then back out (ucge._repetition_search roll-back path)
+        if n < 3:
+            return make_vector(r, n, "signed_product")
+        fac = np.array([3.0, 4.0]) / 5.0 if r.integers(2) else np.array([1.0, 1.0]) / np.sqrt(2)
+        m = n - 2                                   # qubits other than the top one and the common factor (qubit 1)
+        def rest_product():
+            w = np.ones(1)
+            for _ in range(m):
+                f = np.array([r.uniform(0.3, 1.0), r.uniform(0.3, 1.0)])
+                w = np.kron(w, f / np.linalg.norm(f))
+            return w
+        def rest_other():
+            if r.integers(2):
+                w = r.uniform(0.2, 1.0, size=2 ** m)          # entangled, real non-negative
+            else:
+                w = np.zeros(2 ** m)
+                w[int(r.integers(2 ** m))] = 1.0               # sparse: all-zero branches give identity gates
+            return w / np.linalg.norm(w)
+        def with_factor(w):                                    # insert the common factor at qubit 1
+            t = w.reshape([2] * m) if m else w.reshape(())
+            full = np.zeros([2] * (m + 1))
+            idx_axis = m - 1 if m else 0                       # qubit 1 = second-to-last axis of the (m+1)-qubit block
+            for bit in (0, 1):
+                sl = [slice(None)] * (m + 1)
+                sl[idx_axis if m else 0] = bit
+                full[tuple(sl)] = fac[bit] * (t if m else 1.0)
+            return full.reshape(-1)
+        lo, hi = with_factor(rest_product()), with_factor(rest_other())
+        if r.integers(2):
+            lo, hi = hi, lo
+        a = r.uniform(0.4, 0.9)
+        v = np.concatenate([a * lo, np.sqrt(1 - a * a) * hi]).astype(complex)
     elif family == "ghz":
         v[0] = 1.0
         v[dim - 1] = np.exp(1j * r.uniform(-3, 3)) if r.integers(2) else -1.0
@@ -428,7 +463,7 @@ SCHEME_PAIRS = [(i, u) for i in ISO for u in UNI]
 
 def fam_vectors(ctx, r, n, fams, part=None, reps=1):
     for fam in fams:
-        for j in range(reps if fam in ("complex", "sparse", "zero_subtree", "rankdef") else (3 if fam == "signed_product" else 1)):
+        for j in range(reps if fam in ("complex", "sparse", "zero_subtree", "rankdef") else (3 if fam in ("signed_product", "partial_repetition") else 1)):
             v = make_vector(r, n, fam, part)
             p = default_partition(n) if part is None else part
             tries = 0
@@ -459,7 +494,7 @@ def gen_tasks(ctx, nmax):
             for opts in (None, {"target_state": 0, "preserve_previous": False}, {"target_state": 0, "preserve_previous": True}):
                 if cls == "UCGEInitialize" and opts and opts["preserve_previous"]:
                     continue    # outside C01's quantifier (coordinator decision); see the note in run_oracle
-                fams = FAMILIES if opts is None or n <= 4 else ["complex", "sparse", "product", "signed_product"]
+                fams = FAMILIES if opts is None or n <= 4 else ["complex", "sparse", "product", "signed_product", "partial_repetition"]
                 for fam, j, v in fam_vectors(ctx, r, n, fams, reps=reps):
                     tasks.append(make_task(cls, opts, n, fam, j, v))
 
